@@ -22,7 +22,7 @@ R = Run('association graphs over 12 classes (binary/ternary, key/non-key refs, s
         'variants; class level: 14 target names x filter tuples with <= 2 filters set + seeded deeper ones; '
         'HISTORIES on one connection against a model of what is stored (classes with superclass links per namespace, '
         'instances with reference values), a query round after every change, every round re-asking one matrix fixed '
-        'per history (quick: seeded sample that always holds the class names whose subtrees change, 7 sources incl. '
+        'per history (quick: seeded sample that always holds the class names whose subtrees change, 6 sources incl. '
         'those just touched; thorough: all single filters + seeded pairs/deeper on all sources, full <=2-filter matrix '
         'in the CreateClass history), instance level + class level (2 readings: inherited qualifier, per-end-pair) + '
         'Open/Pull/Iter + symmetry + same query twice (equal, no shared objects, spoiling the first answer changes '
@@ -31,7 +31,7 @@ R = Run('association graphs over 12 classes (binary/ternary, key/non-key refs, s
         'with the same names at other places in the tree); 4 namespaces with same-named classes in 2 different trees, '
         'namespaces removed and re-added with the other tree; instances written through the 3 ways, reference values '
         'modified, paths reused; ModifyClass directly and through MOF redefinition; seeded random histories over 11 '
-        'kinds of change (quick 2 x 8 steps, thorough 8 x 25); probes: MOF redefinition in a non-default namespace, '
+        'kinds of change (quick 2 x 7 steps, thorough 8 x 25); probes: MOF redefinition in a non-default namespace, '
         'MOF instance after class change')
 
 NSS = ('root/a', 'root/b', 'root/c')
@@ -1206,7 +1206,7 @@ class Hist:
         self.m = {'root/a': MNs()}
         self.steps = []
         self.seq = 0
-        self.nround = 0
+        self.nround = self.nq = 0
         self.flts = self.cflts = self.targets = None
         self.touched = set()        # objects the steps since the last round were about (always asked in that round)
         self.req = {}               # association id -> namespace it was created in
@@ -1457,7 +1457,7 @@ class Hist:
             return self.rnd.sample(pop, min(k, len(pop)))
         # seeded samples, fixed for the history, always with the names whose subtrees change; level 2 = all of it
         none = [(None,) * 4]
-        self.matrix = {0: (none + pick(fs, 5) + pick(fp, 2) + deep[:1], [rf[0]] + pick(frf, 2) + pick(rf[1:], 1),
+        self.matrix = {0: (none + pick(fs, 4) + pick(fp, 2) + deep[:1], [rf[0]] + pick(frf, 2) + pick(rf[1:], 1),
                            none + pick(fs, 2) + pick(cf, 2)),
                        1: (none + singles + pick(fp, 30) + pick(pairs, 20) + deep[:10], [rf[0]] + frf + pick(rf[1:], 25),
                            none + pick(fs, 6) + pick(cf, 8)),
@@ -1485,7 +1485,7 @@ class Hist:
             hot = [s for s in nodes if s[4] in self.touched]
             hot = self.rnd.sample(hot, min(4, len(hot)))
             cold = [s for s in nodes if s not in hot]
-            out = sorted(hot + self.rnd.sample(cold, min(7 - len(hot), len(cold))), key=lambda s: (s[0], s[1])) + \
+            out = sorted(hot + self.rnd.sample(cold, min(6 - len(hot), len(cold))), key=lambda s: (s[0], s[1])) + \
                 self.rnd.sample(recs, min(1, len(recs)))
         self.touched.clear()
         return [s[1:] for s in out]
@@ -1562,6 +1562,11 @@ class Hist:
                         for r, e in rec.ends)
         return False
 
+    def with_full(self):
+        """Quick tier: the full variant (Associators/References) goes with every other Names query only."""
+        self.nq += 1
+        return not self.quick or (self.nq + self.nround) % 2 == 0
+
     def q_assoc(self, src, flt, obs):
         ns, label, xpath, xk = src
         R.case((self.name, self.nround, 'A', label, flt))
@@ -1569,7 +1574,7 @@ class Hist:
                  ResultRole=flt[3])
         kw = {k: v for k, v in zip(('AssocClass', 'ResultClass', 'Role', 'ResultRole'), flt) if v is not None}
         names = call(self.conn.AssociatorNames, xpath, **kw)
-        full = call(self.conn.Associators, xpath, **kw)
+        full = call(self.conn.Associators, xpath, **kw) if self.with_full() else names
         exp = h_assocs(self.m[ns], xk, *flt)
         if names[0] == 'exc' or full[0] == 'exc':
             return self.bad('history-associators-raises', observed=[repr(names)[:200], repr(full)[:200]], **d)
@@ -1580,7 +1585,7 @@ class Hist:
                             expected=repr(exp)[:300], **d)
         try:
             got = srt(kpath(p) for p in names[1])
-            gotf = srt(kpath(i.path) for i in full[1])
+            gotf = srt(kpath(i.path) for i in full[1]) if full is not names else got
         except Exception as e:  # noqa
             return self.bad('history-associators-wrong-kind', observed=repr(e), **d)
         if got != exp:
@@ -1589,7 +1594,7 @@ class Hist:
         if gotf != exp:
             return self.bad('history-associators-differ-from-stored', expected=repr(exp)[:400],
                             observed=repr(gotf)[:400], **d)
-        if not all(self.inst_ok(i) for i in full[1]):
+        if full is not names and not all(self.inst_ok(i) for i in full[1]):
             return self.bad('history-associators-instance-differs-from-stored', **d)
         obs[(label, flt)] = (src, got)
 
@@ -1599,7 +1604,7 @@ class Hist:
         d = dict(op='References/ReferenceNames', source=label, ResultClass=flt[0], Role=flt[1])
         kw = {k: v for k, v in zip(('ResultClass', 'Role'), flt) if v is not None}
         names = call(self.conn.ReferenceNames, xpath, **kw)
-        full = call(self.conn.References, xpath, **kw)
+        full = call(self.conn.References, xpath, **kw) if self.with_full() else names
         exp = h_refs(self.m[ns], xk, *flt)
         if names[0] == 'exc' or full[0] == 'exc':
             return self.bad('history-references-raises', observed=[repr(names)[:200], repr(full)[:200]], **d)
@@ -1610,7 +1615,7 @@ class Hist:
                             expected=repr(exp)[:300], **d)
         try:
             got = srt(kpath(p) for p in names[1])
-            gotf = srt(kpath(i.path) for i in full[1])
+            gotf = srt(kpath(i.path) for i in full[1]) if full is not names else got
         except Exception as e:  # noqa
             return self.bad('history-references-wrong-kind', observed=repr(e), **d)
         if got != exp:
@@ -1619,7 +1624,7 @@ class Hist:
         if gotf != exp:
             return self.bad('history-references-differ-from-stored', expected=repr(exp)[:400],
                             observed=repr(gotf)[:400], **d)
-        if not all(self.inst_ok(i) for i in full[1]):
+        if full is not names and not all(self.inst_ok(i) for i in full[1]):
             return self.bad('history-references-instance-differs-from-stored', **d)
 
     def symmetry(self, srcs, obs):
@@ -2313,7 +2318,7 @@ def histories(quick):
     run_history(hist_instances, rnd('instances'), quick)
     run_history(hist_modify_class, rnd('modify-class'), quick)
     for i in range(2 if quick else 8):
-        run_history(hist_random, i, rnd('random/%d' % i), quick, 8 if quick else 25)
+        run_history(hist_random, i, rnd('random/%d' % i), quick, 7 if quick else 25)
 
 
 def main():
